@@ -285,7 +285,26 @@ def finish(pid, tier, seed, m, problems, wall, nshards):
         if k['key'] in seen_known:
             continue
         seen_known.add(k['key'])
-        lines.append(f"KNOWN-FINDING: property={pid} {k['what']} [key={k['key']} seen={sum(v for kk, v in m['viol_counts'].items() if fnmatch.fnmatchcase(kk, k['key']))}]")
+        mk = [kk for kk in m['viol_counts'] if fnmatch.fnmatchcase(kk, k['key'])]
+        seen_n = sum(m['viol_counts'][kk] for kk in mk)
+        den = sum(m['clauses'].get(c, 0) for c in {kk.split('/')[1] for kk in mk})
+        rate = f" rate={seen_n / den:.2g} (bound {k['max_rate']})" if ('max_rate' in k and den) else ''
+        lines.append(f"KNOWN-FINDING: property={pid} {k['what']} [key={k['key']} seen={seen_n}{rate}]")
+    # a recorded finding stands for a mechanism seen at a certain (low) rate: the same key at a far higher rate is a wider or different
+    # defect hiding behind the classification (seen with a seeded change whose wrong answers looked like the recorded non-convergence)
+    for kk in {id(k): k for _, k in known_hits}.values():
+        if 'max_rate' not in kk:
+            continue
+        keys = [key for key, k in known_hits if k is kk]
+        seen = sum(m['viol_counts'].get(key, 0) for key in keys)
+        denom = sum(m['clauses'].get(c, 0) for c in {key.split('/')[1] for key in keys})
+        if seen >= 10 and denom and seen / denom > kk['max_rate']:
+            rkey = kk['key'] + '#rate-exceeded'
+            w0 = m['violations'][keys[0]][0]
+            m['violations'][rkey] = [dict(w0, key=rkey, what=f"recorded finding [{kk['key']}] observed {seen} times in {denom} evaluations of its clause(s) "
+                                                                   f"(rate {seen / denom:.3g}, recorded bound {kk['max_rate']}): a wider or different defect than the one recorded; first witness: {w0['what'][:200]}")]
+            m['viol_counts'][rkey] = seen
+            new_viol.append(rkey)
     replay_paths = []
     for n, key in enumerate(new_viol):
         w = m['violations'][key][0]
